@@ -167,7 +167,7 @@ def run_shard(shard: Dict[str, Any], rep: Report) -> None:
 
     P = ModelCtx(shard["env"], shard["cfg"], rep, env=runner.env, rng=rng)
     extra = P.call("policies") if P.has("policies") else {}
-    for nm in ("frontier", "complete", "collide"):
+    for nm in ("frontier", "complete", "collide", "greedy", "lazy"):
         if nm in extra:
             pols.extend([extra[nm]] * (1 if tier == "quick" else 3))
     cap = step_cap(shard["env"], shard["cfg"], tier)
